@@ -20,6 +20,20 @@ def wTok : Tok → String
 
 def wDOp (d : Enc.DOp) : String := s!"{d.cls.pyName} {wList wTok d.toks}"
 
+/-- run the word machine, remembering whether a point the architecture leaves open was executed -/
+def wordRunOpen (code : List Nat) : Nat → Spec.State → Bool → Spec.State × Bool
+  | 0, σ, o => (σ, o)
+  | n + 1, σ, o =>
+    match Spec.wordStep code σ with
+    | none => (σ, o)
+    | some σ' =>
+      let isOpen := match code[σ.pc.toNat]? with
+        | some w => (match Spec.decode w with
+          | some (.instr i) => i.aliased || i.mulHighIn σ
+          | _ => false)
+        | none => false
+      wordRunOpen code n σ' (o || isOpen)
+
 def handle : R String := do
   let cmd ← tok
   match cmd with
@@ -122,6 +136,28 @@ def handle : R String := do
     match Py.parseInt s base with
     | some v => pure s!"ok {v}"
     | none => pure "err"
+  | "specdec" => do
+    let w ← nat
+    match Spec.decode w with
+    | none => pure "none"
+    | some e =>
+      let (c, args) := e.toOp
+      let ints := args.map (fun v => match v with | .int i => i | _ => 0)
+      pure s!"ok {c.pyName} {wList wInt ints}"
+  | "wordvm" => do
+    -- wordvm <fuel> <code words> <memory image: list of (addr, value)> <query addresses>
+    let fuel ← nat
+    let code ← list nat
+    let image ← list (pair nat nat)
+    let addrs ← list nat
+    let mem : BitVec 16 → BitVec 16 := fun a =>
+      match image.find? (fun p => p.1 == a.toNat) with
+      | some p => BitVec.ofNat 16 p.2
+      | none => 0
+    let σ0 : Spec.State := { regs := fun _ => 0, mem := mem, fl := ⟨false, false, false, false, false⟩, pc := 0, halted := false }
+    let (σ, opn) := wordRunOpen code fuel σ0 false
+    let stopped := (Spec.wordStep code σ).isNone
+    pure s!"ok {wBool stopped} {wBool opn} {wSpecState σ addrs}"
   | "pseudo" => do
     let kind ← tok
     let args ← list int
